@@ -108,4 +108,3 @@ func cmdVerify(args []string) {
 		os.Exit(1)
 	}
 }
-
